@@ -706,7 +706,7 @@ def fn_structure(text):
                 term = k
                 break
         idx += 1
-    res = {'arrow': arrow, 'loops': [], 'body_open': None, 'body_close': None, 'term': None, 'where': None}
+    res = {'arrow': arrow, 'loops': [], 'loop_close': [], 'body_open': None, 'body_close': None, 'term': None, 'where': None}
     if term is not None:
         res['term'] = toks[term][2]
         return res, toks
@@ -733,7 +733,9 @@ def fn_structure(text):
                     elif u[1] == '{' and d == 0:
                         break
                 j += 1
+            jc = match_close(toks, j) if j < bc else None
             res['loops'].append((t[2], toks[j][2], t[1]))
+            res['loop_close'].append(toks[jc][2] if jc is not None else None)
         k += 1
     return res, toks
 
@@ -822,8 +824,40 @@ def find_anchor(text, toks, pat, nth, where):
                   constants and operands."""
     sg = [(k, t) for k, t in enumerate(toks) if t[0] not in ('ws', 'lcomment', 'bcomment')]
     hits = []
+    if pat.startswith('stmt:') and ' >> ' in pat:
+        # nesting path `stmt:A [#n] >> stmt:B`: B is searched only inside the extent of the n-th statement A
+        outer, inner = pat.split(' >> ', 1)
+        on = 1
+        mo = re.match(r'^(.*?)\s+#(\d+)\s*$', outer)
+        if mo:
+            outer, on = mo.group(1), int(mo.group(2))
+        ko = find_anchor(text, toks, outer, on, where)
+        eo = stmt_end(toks, ko)
+        sub_hits = []
+        n_try = 1
+        while True:
+            try:
+                kk = find_anchor(text, toks, inner, n_try, where)
+            except ExtractError:
+                break
+            if ko < kk <= eo:
+                sub_hits.append(kk)
+            if kk > eo:
+                break
+            n_try += 1
+        if len(sub_hits) < nth:
+            raise ExtractError('anchor-lost', '%s: structural anchor `%s` #%d not found (%d hits)' % (where, pat, nth, len(sub_hits)))
+        return sub_hits[nth - 1]
     if pat.startswith('stmt:'):
-        spec = pat[5:].split()
+        # optional content filter `stmt:KIND [NAME] ~ text`: only statements whose own source text contains `text`
+        # (token-normalised) count; makes the ordinal independent of unrelated statements of the same kind
+        body_has = None
+        if ' ~ ' in pat:
+            pat0, body_has = pat.split(' ~ ', 1)
+            body_has = norm_tokens(body_has)
+        else:
+            pat0 = pat
+        spec = pat0[5:].split()
         kind = spec[0]
         name = spec[1] if len(spec) > 1 else None
         for a in range(len(sg)):
@@ -834,6 +868,10 @@ def find_anchor(text, toks, pat, nth, where):
                 continue
             kd, nm = stmt_kind(toks, k)
             if kd == kind and (name is None or nm == name):
+                if body_has is not None:
+                    e = stmt_end(toks, k)
+                    if body_has not in norm_tokens(text[toks[k][2]:toks[e][3]]):
+                        continue
                 hits.append(k)
         if len(hits) < nth:
             raise ExtractError('anchor-lost', '%s: structural anchor `%s` #%d not found (%d hits)' % (where, pat, nth, len(hits)))
@@ -907,7 +945,7 @@ def splice(text, sections, where):
     if LENIENT['on']:
         kept = []
         for sec in sections:
-            if sec[0] in ('loop', 'before', 'after', 'closure'):
+            if sec[0] in ('loop', 'before', 'after', 'closure', 'loopstart', 'loopend', 'afterloop'):
                 try:
                     splice_strict(text, [sec] + [x for x in sections if x[0] == 'ret'], where)
                     kept.append(sec)
@@ -954,6 +992,21 @@ def splice_strict(text, sections, where):
                         raise ExtractError('anchor-lost', '%s: no `in` in for header' % w)
                     inserts.append((m.end(), order, ' ' + a[5:] + ':'))
             inserts.append((br_off, order + 0.5, '\n' + GB + body.rstrip() + GE + '\n'))
+        elif kind in ('loopstart', 'loopend', 'afterloop'):
+            # structural positions that survive edits of the statements themselves: first thing in the body of loop N,
+            # last thing in it, and directly after the loop
+            check_ghost('stmt', body, w)
+            n = int(args[0])
+            if n < 1 or n > len(st['loops']) or st['loop_close'][n - 1] is None:
+                raise ExtractError('anchor-lost', '%s: function has %d loops' % (w, len(st['loops'])))
+            kw_off, br_off, kw = st['loops'][n - 1]
+            cl = st['loop_close'][n - 1]
+            if kind == 'loopstart':
+                inserts.append((br_off + 1, order, '\n' + GB + body.rstrip() + GE + '\n'))
+            elif kind == 'loopend':
+                inserts.append((cl, order, GB + body.rstrip() + GE + '\n'))
+            else:
+                inserts.append((cl + 1, order, '\n' + GB + body.rstrip() + GE + '\n'))
         elif kind in ('before', 'after'):
             check_ghost('stmt', body, w)
             n = int(args[0])
@@ -999,8 +1052,30 @@ def splice_strict(text, sections, where):
                         while b < len(sgt) and not (sgt[b][1][0] == 'punct' and sgt[b][1][1] == '|'):
                             b += 1
                     found.append((a, b))
+            if len(args) > 2:
+                # content selector: only closures whose text (parameters and body) contains the given text count
+                def _cl_text(a, b):
+                    d = 0
+                    e = b + 1
+                    while e < len(sgt):
+                        u = sgt[e][1]
+                        if u[0] == 'punct':
+                            if u[1] in '([{':
+                                d += 1
+                            elif u[1] in ')]}':
+                                if d == 0:
+                                    break
+                                d -= 1
+                                if d == 0 and u[1] == '}' and sgt[b + 1][1][1] == '{':
+                                    e += 1
+                                    break
+                            elif u[1] == ',' and d == 0:
+                                break
+                        e += 1
+                    return norm_ws(text[sgt[a][1][2]:sgt[e - 1][1][3]])
+                found = [(a, b) for a, b in found if norm_ws(args[2]) in _cl_text(a, b)]
             if len(found) < n:
-                raise ExtractError('anchor-lost', '%s: function has %d closures' % (w, len(found)))
+                raise ExtractError('anchor-lost', '%s: function has %d matching closures' % (w, len(found)))
             a, b = found[n - 1]
             p_start = sgt[a][1][2]
             p_end = sgt[b][1][3]
@@ -1084,7 +1159,7 @@ def parse_sections(body, where):
     cur = None
     for line in body.split('\n'):
         s = line.strip()
-        m = re.match(r'^@(ret|sig|loop|before|after|start|end|header|drop|closure)\b(.*)$', s)
+        m = re.match(r'^@(ret|sig|loopstart|loopend|afterloop|loop|before|after|start|end|header|drop|closure)\b(.*)$', s)
         if m:
             kind = m.group(1)
             rest = m.group(2).strip()
@@ -1094,19 +1169,19 @@ def parse_sections(body, where):
                 if not m2:
                     raise ExtractError('bad-template', '%s: @%s needs  N `pattern`' % (where, kind))
                 args = [m2.group(1), m2.group(2)]
-            elif kind == 'loop':
+            elif kind in ('loop', 'loopstart', 'loopend', 'afterloop'):
                 args = rest.split()
                 if not args or not args[0].isdigit():
-                    raise ExtractError('bad-template', '%s: @loop needs an ordinal' % where)
+                    raise ExtractError('bad-template', '%s: @%s needs an ordinal' % (where, kind))
             elif kind == 'ret':
                 args = rest.split()
                 if len(args) != 1:
                     raise ExtractError('bad-template', '%s: @ret needs a name' % where)
             elif kind == 'closure':
-                m2 = re.match(r'^(\d+)\s+`(.*)`\s*$', rest)
+                m2 = re.match(r'^(\d+)\s+`([^`]*)`\s*(?:has=`([^`]*)`)?\s*$', rest)
                 if not m2:
-                    raise ExtractError('bad-template', '%s: @closure needs  N `|typed params| -> (ret: T)`' % where)
-                args = [m2.group(1), m2.group(2)]
+                    raise ExtractError('bad-template', '%s: @closure needs  N `|typed params| -> (ret: T)` [has=`text`]' % where)
+                args = [m2.group(1), m2.group(2)] + ([m2.group(3)] if m2.group(3) else [])
             elif kind == 'drop':
                 m2 = re.match(r'^`(.*)`\s*$', rest)
                 if not m2:
@@ -1149,6 +1224,14 @@ def extract_item(repo_root, rel, container, kind, name, opts, unit_rules, sectio
                 if k1 < k0:
                     raise ExtractError('anchor-lost', '%s: upto= statement precedes stmt=' % where)
                 e0 = stmt_end(ftoks, k1)
+            if 'until' in opts:
+                # exclusive end: everything from the first statement up to (not including) the `until=` statement
+                k1 = find_anchor(ftxt, ftoks, opts['until'], int(opts.get('untilnth', '1')), where + ' region until')
+                if k1 <= k0:
+                    raise ExtractError('anchor-lost', '%s: until= statement does not follow stmt=' % where)
+                e0 = k1 - 1
+                while e0 > k0 and ftoks[e0][0] in ('ws', 'lcomment', 'bcomment'):
+                    e0 -= 1
             raw = ftxt[ftoks[k0][2]:ftoks[e0][3]]
             sha = hashlib.sha256(raw.encode()).hexdigest()
             body = '{\n' + strip_comments(raw) + '\n' + opts.get('tail', '') + '\n}'
